@@ -3,7 +3,11 @@ package main
 import (
 	"fmt"
 	"go/types"
+	"path/filepath"
 	"sort"
+	"strings"
+
+	"golang.org/x/tools/go/ssa"
 )
 
 // Structural side conditions: facts about declarations (go/types level) that contracts on
@@ -55,6 +59,38 @@ func runStructural(name string, P *Program) (checked int, violations []string) {
 			checked++
 			if why, bad := renderingMethods[n]; bad {
 				violations = append(violations, fmt.Sprintf("configopaque.String declares method %s: %s — it is not under a redaction contract", n, why))
+			}
+		}
+		return checked, violations
+	}
+	if name == "strict_decoding_callsites" {
+		// C13: decoding rejects keys that no field accepts unless a call site opts out with
+		// confmap.WithIgnoreUnused(); no function of the loaded collector packages may do so.
+		if P.ByPath["go.opentelemetry.io/collector/confmap"] == nil {
+			return 0, nil // this unit does not load confmap users
+		}
+		var keys []string
+		for k := range P.Funcs {
+			keys = append(keys, k)
+		}
+		sort.Strings(keys)
+		for _, k := range keys {
+			f := P.Funcs[k]
+			if f.Blocks == nil || !strings.HasPrefix(k, "go.opentelemetry.io/collector/") || strings.HasPrefix(k, "go.opentelemetry.io/collector/cmd/") {
+				continue
+			}
+			checked++
+			for _, b := range f.Blocks {
+				for _, ins := range b.Instrs {
+					ci, ok := ins.(ssa.CallInstruction)
+					if !ok {
+						continue
+					}
+					if callee := ci.Common().StaticCallee(); callee != nil && funcKey(originOf(callee)) == "go.opentelemetry.io/collector/confmap.WithIgnoreUnused" {
+						pos := P.Fset.Position(ins.Pos())
+						violations = append(violations, fmt.Sprintf("%s opts out of unknown-key rejection (confmap.WithIgnoreUnused at %s:%d)", shortKey(k), filepath.Base(pos.Filename), pos.Line))
+					}
+				}
 			}
 		}
 		return checked, violations
